@@ -31,3 +31,18 @@ Definition f64_div (x y : f64) : f64 := @Bdiv 53 1024 f64_prec f64_prec_emax mod
 Definition f64_mul (x y : f64) : f64 := @Bmult 53 1024 f64_prec f64_prec_emax mode_NE x y.
 Definition f64_lt (x y : f64) : bool := Bltb x y.
 Definition f64_le (x y : f64) : bool := Bleb x y.
+
+(* shifts, slices and counted loops of the generated definitions *)
+From Coq Require Import List.
+Import ListNotations.
+Definition u64_shl (a b : N) : N := N.shiftl a b mod U64.
+Definition list_get {A} (d : A) (l : list A) (i : N) : A := nth (N.to_nat i) l d.
+Fixpoint list_set_nat {A} (l : list A) (i : nat) (v : A) : list A :=
+  match l, i with
+  | [], _ => []                           (* out of range: Go panics; not reached by the generated loops (index < length) *)
+  | _ :: t, O => v :: t
+  | x :: t, S i' => x :: list_set_nat t i' v
+  end.
+Definition list_set {A} (l : list A) (i : N) (v : A) : list A := list_set_nat l (N.to_nat i) v.
+(* for i := lo; i < hi; i++ *)
+Definition go_range (lo hi : N) : list N := map N.of_nat (seq (N.to_nat lo) (N.to_nat hi - N.to_nat lo)).
